@@ -249,6 +249,8 @@ func LexModes() []*LexSpec {
 		{"L-act3-epp", "A = 'a' @push_mode(X)\nEX = 'x'\n@mode X {\nB = 'b'\n@frag '!' @emit(EX) @pop_mode @push_mode(Y)\n}\n@mode Y {\nC = 'c' @pop_mode\nD = 'd'\n}"},
 		{"L-act3-dpush2", "A = 'a'\n@frag '!' @discard @push_mode(X) @push_mode(Y)\n@mode X {\nB = 'b' @pop_mode\n}\n@mode Y {\nC = 'c' @pop_mode\n}"},
 		{"L-act3-tok", "A = 'a' @push_mode(X) @push_mode(Y) @pop_mode\n@mode X {\nB = 'b' @pop_mode\n}\n@mode Y {\nC = 'c' @pop_mode\n}"},
+		{"L-act-poppop", "K = 'k' @push_mode(M1) @push_mode(M2)\nZ = 'z'\n@mode M1 {\nP = 'p' @pop_mode\nQ = 'z'\n}\n@mode M2 {\nBOTH = '!' @pop_mode @pop_mode\nR = 'r'\n}"},
+		{"L-act-popemitpop", "K = 'k' @push_mode(M1) @push_mode(M2)\nZ = 'z'\nT = 't'\n@mode M1 {\nQ = 'z'\n}\n@mode M2 {\n@frag '!' @pop_mode @emit(T) @pop_mode\nR = 'r'\n}"},
 		{"L-mode-empty", "ID = [g-z]+\n@mode Common {\n@macro HEX = [0-9a-f]\n}\nOP = '(' @push_mode(Paren)\n@mode Paren {\nCP = ')' @pop_mode\nHN = HEX+\n}\n@mode Str {\nSC = [a-z]+\nSQ = '\"' @pop_mode\n}\nQ = '\"' @push_mode(Str)"},
 		{"L-acc", "@frag '\\'' @push_mode(Lit)\nID = [a-z]+\n@mode Lit {\nLITERAL = '\\'' @pop_mode\n@frag '\\\\' [\\\\'n]\n@frag ~[\\\\\\n']\n}"},
 	})
